@@ -1693,12 +1693,21 @@ func main() {
 		// replay file written by ./check: {"input": {"ops": [...]}} — re-run that session with the oracles on
 		var rp struct {
 			Input struct {
-				Ops []string `json:"ops"`
+				Ops       []string `json:"ops"`
+				TxSession *int     `json:"txsession"`
 			} `json:"input"`
 		}
 		raw, err := os.ReadFile(run.Replay)
 		must(err)
 		must(json.Unmarshal(raw, &rp))
+		if rp.Input.TxSession != nil {
+			if *rp.Input.TxSession < 0 {
+				g.txScripted()
+			} else {
+				g.txSession(*rp.Input.TxSession)
+			}
+			return
+		}
 		var ops []op
 		for _, l := range rp.Input.Ops {
 			o, ok := parseOp(l)
@@ -1717,6 +1726,7 @@ func main() {
 	}
 
 	g.scripted()
+	g.txScripted()
 
 	// exhaustive small scope: 2 accounts x 2 keys
 	depth := run.Pick(5, 6)
@@ -1741,6 +1751,13 @@ func main() {
 	}
 	for i := 0; i < run.Pick(1200, 15000); i++ {
 		g.txShaped(3 + rng.Intn(run.Pick(8, 12)))
+		if g.failures > 8 {
+			break
+		}
+	}
+	// the callers of the snapshot API, on the real executor (tx.go)
+	for i := 0; i < run.Pick(120, 1500); i++ {
+		g.txSession(i)
 		if g.failures > 8 {
 			break
 		}
